@@ -131,8 +131,11 @@ def spec_comutex(tier):
         mc.append(("CoMutex_Live.cfg", 4, 1800, "CoMutex: every request is eventually granted under weak fairness of the workers"))
     boost = [{"opts": o, "workers": "2", "p1": "a", "p2": "a"} for o in ("00", "01", "10", "11")]
     boost += [{"opts": "10", "workers": "2", "p1": "s", "p2": "c"}, {"opts": "11", "workers": "2", "p1": "b", "p2": "h"}]
+    # hand-over to an executor (UnlockOn / sticky unlock) with two waiters queued: what the old owner does after the
+    # Submit must not matter any more
+    boost += [{"opts": o, "workers": "2", "p1": f, "p2": f, "p3": f} for o in ("00", "10") for f in ("c", "s")]
     return ConcSpec(
-        name="CoMutex", scenario="cm", grid=grid, tail_boost=boost, tail_boost_execs=4000, tail_boost_preempt=2, inv_props={"NoRace": ("C14", "C04")}, primary="C14",
+        name="CoMutex", scenario="cm", grid=grid, tail_boost=boost, tail_boost_execs=22000, tail_boost_preempt=3, inv_props={"NoRace": ("C14", "C04")}, primary="C14",
         mc_cfgs=mc, paths_cfg=None,   # (the model lets any idle worker take a job later; the harness pool wakes workers eagerly)
         dfs_max=600 if tier == "quick" else 6000, preempt=2 if tier == "quick" else 3,
         rand_execs=100 if tier == "quick" else 2000, rand_grid=rand,
